@@ -2,6 +2,7 @@ package pseq
 
 import (
 	"fmt"
+	"math"
 
 	"github.com/creachadair/mds/mlink"
 	"verif/vk"
@@ -125,12 +126,19 @@ func (r *mqRun) apply(op Op) string {
 		return r.check()
 	case "peek":
 		n := a % (len(r.ref) + 3)
+		if a >= 190 { // offsets at the end of the int range
+			ext := []int{math.MaxInt, math.MaxInt - 1, math.MaxInt - len(r.ref), 1 << 31, 1 << 32, 1<<63 - 1<<10}
+			n = ext[a%len(ext)]
+		}
 		if n >= len(r.ref) {
 			r.peekOut++
 		}
 		return r.checkPeek(n)
 	case "peekNeg":
 		n := -(a%3 + 1)
+		if a >= 190 {
+			n = []int{math.MinInt, math.MinInt + 1, -1 << 32, -math.MaxInt}[a%4]
+		}
 		r.peekNeg++
 		var got int
 		var ok bool
